@@ -169,11 +169,10 @@ def extra(ctx, ofails, notes):
     # 1. a panic / abort of read_from is a failure of the property (the generic driver reports it as "not applicable")
     npanic = 0
     for prof in PROFILES:
-        f = ctx.work / f"records_{prof}.txt"
-        if not f.exists():
-            f = ctx.work / f"records_replay_{prof}.txt"
-        if not f.exists():
+        cands = [x for x in (ctx.work / f"records_{prof}.txt", ctx.work / f"records_replay_{prof}.txt") if x.exists()]
+        if not cands:
             continue
+        f = max(cands, key=lambda x: x.stat().st_mtime)       # the file this run has just written (generated or replayed)
         for line in f.read_text().splitlines():
             if "#PANIC" in line:
                 ofails.append({"profile": prof, "record": line})
